@@ -379,11 +379,15 @@ def run_case(case, acc):
                 nontrivial[0] = True
             # negative interval
             for fn in ("cpu_percent", "cpu_times_percent"):
-                try:
-                    getattr(ps, fn)(interval=-1)
-                    viols.append((f"{fn}_negative_interval_accepted", ctx))
-                except ValueError:
-                    pass
+                for percpu in (False, True):
+                    for bad in (-1, -0.25):
+                        acc.count("negative_intervals_checked")
+                        try:
+                            getattr(ps, fn)(interval=bad, percpu=percpu)
+                            viols.append((f"{fn}_negative_interval_accepted", ctx + f" interval={bad} percpu={percpu}"))
+                            last.pop((0, fn, percpu), None)      # (whatever it stored, the model's sample is void now)
+                        except ValueError:
+                            pass
         finally:
             ps.time = old_time
     acc.case(case, nontrivial[0], viols)
